@@ -54,12 +54,19 @@ def clause_state_table(prog, rep, pm, dedup):
             if any("tracing" in e for e in (cal.get("expn") or [])) and nm in ("le", "lt", "ge", "gt"):
                 return ("int", 0)
             if nm in ("eq", "ne") and len(args) == 2:
+                if all(a[0] == "variant" and a[1] == "ProcessedMessageState" for a in args):
+                    r = int(args[0][2] == args[1][2])
+                    return ("int", r if nm == "eq" else 1 - r)
                 for a in args:
                     if a[0] == "variant" and a[1] == "ProcessedMessageState":
                         r = int(a[2] == S)
                         return ("int", r if nm == "eq" else 1 - r)
             if nm in ("le", "lt") and "tracing" in (cal.get("path") or ""):
                 return ("int", 0)
+            if nm == "find_processed_message_by_event_id" and (cal.get("trait") or "").startswith("mdk_storage_traits::"):
+                return ("variant", "Result", "Ok", (("variant", "Option", "Some", (("symrec", S),)),))
+            if nm == "map_err" and args and args[0][0] == "variant" and args[0][1] == "Result" and args[0][2] == "Ok":
+                return args[0]
             return None
 
         def opaque_switch(bb, val, t):
@@ -73,7 +80,16 @@ def clause_state_table(prog, rep, pm, dedup):
                             return tb
                     return t["otherwise"]
             return None
-        ev = dtable.Evaluator(pm, lambda x: None, lambda a, b: None, opaque_switch, call_hook=hook, max_steps=6000)
+        def mentions_record(v):
+            return isinstance(v, tuple) and (v == ("symrec", S) or any(mentions_record(x) for x in v if isinstance(x, tuple)))
+
+        def inline(t, args=None, S=S):
+            # helpers of the dedup step: infallible mdk-core functions that are handed the stored record
+            return (t.crate == "mdk_core" and not t.is_closure() and "Result<" not in (t.ret or "") and args is not None
+                    and any(mentions_record(a) for a in args))
+        ev = dtable.Evaluator(pm, lambda x: (x[2] if x[0] == "variant" and x[1] == "ProcessedMessageState" else None),
+                              lambda a, b: (0 if a == b else (1 if a > b else -1)), opaque_switch, call_hook=hook, max_steps=6000, prog=prog, inline=inline)
+        ev.proj_hook = lambda v, e, S=S: ("variant", "ProcessedMessageState", S, ()) if (v == ("symrec", S) and e == ".state") else None
         # tracing macros expand to calls carrying their macro backtrace: make it visible to the hook
         def stop(cal, args):
             # the dedup step ends at the first fallible mdk-core step (event validation / decryption / dispatch)
